@@ -25,7 +25,7 @@ pub fn spec() -> Spec {
         case_cap_s: |t| t.pick(300, 3600),
         rule: "one case per connected complete symbol: every labeled 2- and 3-dimensional symbol of size <= 3 with branching in {1,2,3} (every labeling), every DSyms output over DSets(2, <= N), the harness-built 2-sheeted covers of the labeled symbols of size <= 2, (thorough) 3-dimensional size 4 with branching {1,2}. Structural clauses read off the returned maps; group clauses against the textbook presentation built by the reference model: equal abelian invariants, equal subgroup class counts up to an index, for finite groups equal order (= 4/K for good spherical 2D symbols) and mutually inverse generator maps verified in the regular representations. Non-trivial = at least one generator.",
         assumptions: &["class counts are compared only while (n!)^generators <= 2*10^6 for both presentations; skipped comparisons are counted in the evidence"],
-        bounds: |t| json!({"labeled_max_size": 3, "V": [1,2,3], "dsyms_dsets_max_size": t.pick(8, 10), "class_index": 4, "order_cap": 3000, "dim3_size4": t.pick("V = {1,2}", "V = {1,2,3} with <= 3 branched orbits")}),
+        bounds: |t| json!({"labeled_max_size": 3, "V": [1,2,3], "dsyms_dsets_max_size": t.pick(8, 10), "class_index": 4, "deep_class_index": t.pick(5, 6), "deep_class_node_cap": t.pick(20000, 200000), "larger_3d_symbols": "corpus, prisms over euclidean 2D symbols of size <= 3 [4], admissible symbols of size <= 2 [3] with branching 4 or 6, 3D Coxeter coset symbols to 48 [120] chambers", "order_cap": 3000, "dim3_size4": t.pick("V = {1,2}", "V = {1,2,3} with <= 3 branched orbits")}),
     }
 }
 
@@ -203,6 +203,29 @@ pub fn check_symbol(ctx: &mut Ctx, family: &str, s: &RS) {
             ctx.add("class_counts_skipped_for_cost", 1);
         }
     }
+    // deeper indices with the reference backtracking search on both presentations (bounded effort per symbol)
+    {
+        let kdeep = ctx.tier.pick(5, 6);
+        let cap = ctx.tier.pick(20_000u64, 200_000u64);
+        match (low_index_ref(ng, &nonempty, kdeep, cap), low_index_ref(tb.ngens, &tb.rels, kdeep, cap)) {
+            (Some(l1), Some(l2)) => {
+                let per = |l: &Vec<Action>| -> Vec<usize> {
+                    let mut by = vec![0usize; kdeep + 1];
+                    for a in l {
+                        by[a.len()] += 1;
+                    }
+                    by[1..].to_vec()
+                };
+                ctx.ops(1);
+                ctx.add("deep_class_counts_compared", 1);
+                if per(&l1) != per(&l2) {
+                    ctx.violation("class-count", case.clone(), format!("classes of subgroups per index 1..{}: crate presentation <{} | {:?}> has {:?}, textbook presentation {:?}", kdeep, ng, crels, per(&l1), per(&l2)), weight);
+                    return;
+                }
+            }
+            _ => ctx.add("deep_class_counts_skipped_for_cost", 1),
+        }
+    }
     // finite groups: order and isomorphism by generator maps
     let o2 = Tc::run(tb.ngens, &tb.rels, &[], 3000);
     let o1 = if ng == 0 { Some(Action { ng: 0, rows: vec![vec![]] }) } else { Tc::run(ng, &nonempty, &[], 3000) };
@@ -329,6 +352,40 @@ fn run(ctx: &mut Ctx) {
                 check_symbol(ctx, "labeled", s);
             }
         });
+    }
+    // larger 3-dimensional symbols: the known-euclidean corpus, prisms over the euclidean 2-dimensional symbols
+    // of size <= 3 [4], admissible symbols with branching 4 and 6, Coxeter coset symbols up to 48 [120] chambers
+    {
+        use crate::props::common3d::{admissible_symbols, corpus, euclidean_2d_symbols, prism_over};
+        let mut list: Vec<(&str, RS)> = vec![];
+        for (_, c) in corpus() {
+            list.push(("corpus", c));
+        }
+        for t in euclidean_2d_symbols(tier.pick(3, 4)) {
+            if let Some(p) = prism_over(&t) {
+                if valid_symbol(&p).is_ok() && p.commutes() {
+                    list.push(("prism", p));
+                }
+            }
+        }
+        for n in 1..=tier.pick(2, 3) {
+            for a in admissible_symbols(n) {
+                if a.v.iter().any(|r| r.iter().any(|&x| x >= 4)) {
+                    list.push(("admissible", a));
+                }
+            }
+        }
+        for (_, c) in coxeter_symbols(tier.pick(48, 120)) {
+            if c.dim() == 3 && c.n >= 5 {
+                list.push(("coxeter", c));
+            }
+        }
+        for (fam, sy) in list {
+            if ctx.take() {
+                ctx.add("larger_3d_symbols", 1);
+                check_symbol(ctx, fam, &sy);
+            }
+        }
     }
     let sets: Vec<_> = ctx.supply("DSets::new", || DSets::new(2, tier.pick(8, 10)).collect::<Vec<_>>());
     for ds in sets {
